@@ -708,19 +708,26 @@ func sites(f *ssa.Function) *siteTable {
 	type ent struct {
 		in  ssa.Instruction
 		ord int
+		pos token.Pos // own position, or the last valid position seen before it (total order)
 	}
 	var all []ent
 	n := 0
 	for _, b := range f.Blocks {
+		last := token.NoPos
 		for _, in := range b.Instrs {
-			all = append(all, ent{in, n})
+			p := in.Pos()
+			if p.IsValid() {
+				last = p
+			} else {
+				p = last
+			}
+			all = append(all, ent{in, n, p})
 			n++
 		}
 	}
 	sort.SliceStable(all, func(i, j int) bool {
-		pi, pj := all[i].in.Pos(), all[j].in.Pos()
-		if pi.IsValid() && pj.IsValid() && pi != pj {
-			return pi < pj
+		if all[i].pos != all[j].pos {
+			return all[i].pos < all[j].pos
 		}
 		return all[i].ord < all[j].ord
 	})
@@ -1082,7 +1089,7 @@ func (x *Exec) loopHead(st *State, fr *Frame, li *loopInfo) bool {
 		}
 		var impl []implInv
 		var zeroOff []*cell
-		for al := range li.cells {
+		for _, al := range sortedAllocs(li.cells) {
 			c := fr.cells[al]
 			if c == nil {
 				continue
@@ -1295,7 +1302,7 @@ func (x *Exec) checkClauses(st *State, env *Env, cl []Clause, kind, prefix, site
 }
 
 func (x *Exec) havocLoop(st *State, fr *Frame, li *loopInfo) {
-	for al := range li.cells {
+	for _, al := range sortedAllocs(li.cells) {
 		c := fr.cells[al]
 		if c == nil {
 			continue // allocated inside the loop
@@ -1315,7 +1322,7 @@ func (x *Exec) havocLoop(st *State, fr *Frame, li *loopInfo) {
 		x.havocAll(st)
 		return
 	}
-	for k := range li.keys {
+	for _, k := range sortedBoolKeys(li.keys) {
 		if strings.HasPrefix(k, "mod:") {
 			// callee modifies item: havoc by key prefix, conservatively for all refs
 			parts := strings.SplitN(k, ":", 3)
@@ -1329,7 +1336,8 @@ func (x *Exec) havocLoop(st *State, fr *Frame, li *loopInfo) {
 // havocPrefix replaces every known heap array whose key starts with prefix by a fresh one.
 func (x *Exec) havocPrefix(st *State, prefix string) {
 	x.materialize(st, prefix)
-	for k, a := range st.heap {
+	for _, k := range sortedHeapKeys(st.heap) {
+		a := st.heap[k]
 		if k == prefix || strings.HasPrefix(k, prefix) {
 			st.heap[k] = Fresh("Hl!"+k, a.Sort)
 		}
@@ -1359,7 +1367,8 @@ func (x *Exec) materialize(st *State, prefix string) {
 }
 
 func (x *Exec) havocAll(st *State) {
-	for k, a := range st.heap {
+	for _, k := range sortedHeapKeys(st.heap) {
+		a := st.heap[k]
 		st.heap[k] = Fresh("Hh!"+k, a.Sort)
 	}
 	st.events = append(st.events, "*")
@@ -1661,4 +1670,31 @@ func skolemizeGoal(g *T) (*T, []*T) {
 		return Implies(g.Args[0], b), sk
 	}
 	return g, nil
+}
+
+func sortedHeapKeys(m map[string]*T) []string {
+	ks := make([]string, 0, len(m))
+	for k := range m {
+		ks = append(ks, k)
+	}
+	sort.Strings(ks)
+	return ks
+}
+
+func sortedBoolKeys(m map[string]bool) []string {
+	ks := make([]string, 0, len(m))
+	for k := range m {
+		ks = append(ks, k)
+	}
+	sort.Strings(ks)
+	return ks
+}
+
+func sortedAllocs(m map[*ssa.Alloc]bool) []*ssa.Alloc {
+	as := make([]*ssa.Alloc, 0, len(m))
+	for a := range m {
+		as = append(as, a)
+	}
+	sort.Slice(as, func(i, j int) bool { return allocOrder(as[i]) < allocOrder(as[j]) })
+	return as
 }
